@@ -1,4 +1,5 @@
 import Pendulum.Proofs.PD5
+import Pendulum.Proofs.IvRebuild
 /-! # C06 — Interval components are canonical and rebuild the end from the start
 
 Theorems about `Model/PreciseDiff.lean` (the repaired `precise_diff`, both implementations) and
@@ -272,6 +273,196 @@ theorem pd_backends_agree (a b : E) (htz : a.tz = b.tz) (hda : a.isDt = true) (h
     have : -(Gen.day_number b.y b.m b.d - Gen.day_number a.y a.m a.d) = Gen.day_number a.y a.m a.d - Gen.day_number b.y b.m b.d := by omega
     rw [this]
 
+/-- **ranges + rebuild for every pair sharing a tzinfo with one UTC offset** (naive, UTC, `FixedTimezone`, any zone
+    between two transitions): `pd_ranges`/`pd_rebuild` without the `NoShift` restriction. When both endpoints fall on the
+    same wall-clock day `precise_diff` decomposes the pair *after* shifting it to UTC; the shifted pair is less than a day
+    apart, so its components hold no years or months (monotonicity of `add_duration` in the month count) and rebuild the
+    unshifted end from the unshifted start as well. `hs1`/`hs2`: the UTC readings of the endpoints are representable
+    (`d - d.utcoffset()` does not overflow). -/
+theorem pd_rebuild_same_offset (a b : E) (ha : a.Valid) (hb : b.Valid) (htz : a.tz = b.tz) (hoff : a.off = b.off)
+    (hpos : a.off ≠ 0 → a.tz > 0) (hle : a.le b) (hda : a.isDt = true) (hdt : b.isDt = true)
+    (hy1 : 1 ≤ a.y) (hy2 : b.y ≤ 9999) (hs1 : 1 ≤ (pyShift a).y) (hs2 : (pyShift b).y ≤ 9999)
+    (el : Int) (hel : 0 ≤ el) :
+    let p := preciseDiffPy a b
+    p.Canonical ∧
+    addDuration a.wallUs p.years p.months (weeksOf p) (remainingDaysOf p el) p.hours p.minutes p.seconds p.micros
+      = .ok b.wallUs := by
+  by_cases hns : NoShift a b
+  · exact ⟨pd_ranges a b ha hb htz hns hle hdt hy1 hy2, pd_rebuild a b ha hb htz hns hle hdt hy1 hy2 el hel⟩
+  · have hoffne : a.off ≠ 0 := by
+      intro h0; exact hns (Or.inl ⟨h0, by rw [← hoff]; exact h0⟩)
+    have htzp := hpos hoffne
+    have hday : Gen.day_number b.y b.m b.d - Gen.day_number a.y a.m a.d = 0 := by
+      by_cases c : Gen.day_number b.y b.m b.d - Gen.day_number a.y a.m a.d = 0
+      · exact c
+      · exact absurd (Or.inr ⟨htzp, c⟩) hns
+    have hgt : pyGt a b = false := by
+      unfold pyGt; rw [if_pos htz]; exact lexLt_false_of_le a b ha.2 hb.2 hle
+    have hya : a.y ≤ 9999 ∧ 1 ≤ b.y := by
+      have := hle.1; unfold dateLe at this; omega
+    cases hne : pyEq a b
+    · simp only [pd_same_day_shift a b hda hdt hday hgt hne]
+      obtain ⟨va, _, _⟩ := pyShift_spec a ha
+      obtain ⟨vb, _, _⟩ := pyShift_spec b hb
+      have wa := pyShift_wallUs a ha
+      have wb := pyShift_wallUs b hb
+      have hwle := wallUs_of_le a b ha hb hle
+      have hle' : (pyShift a).le (pyShift b) := le_of_wallUs _ _ va vb (by rw [wa, wb, hoff]; omega)
+      have hdb' : (pyShift b).isDt = true := by
+        unfold pyShift; split
+        · exact hdt
+        · simpa using hdt
+      have hsp := decompose_spec (pyShift a) (pyShift b) va vb hle' hdb' hs1 hs2 0 el hel
+      simp only [] at hsp
+      obtain ⟨hc, hr⟩ := hsp
+      refine ⟨hc, ?_⟩
+      obtain ⟨c1, c2, _, c4, _, c6, _, c8, _, c10, _, c12, _⟩ := hc
+      have wk := weeks_days _ el c4 hel
+      rw [wa, wb, ← hoff] at hr
+      have hlt : b.wallUs - a.wallUs < DAY := by
+        rw [Pendulum.Props.C15.day_number_eq _ _ _ ⟨hb.1.1, hb.1.2.1⟩,
+          Pendulum.Props.C15.day_number_eq _ _ _ ⟨ha.1.1, ha.1.2.1⟩] at hday
+        have ta := E.tod_range a ha
+        have tb := E.tod_range b hb
+        unfold E.wallUs fieldsToWall DAY; omega
+      exact (same_day_transfer a.wallUs b.wallUs (a.off * 1000000) _ _ _ _ _ _ _ _ c1 c2 wk.2.1 wk.2.2.1 c6 c8 c10 c12
+        hr hlt (wall_in_range a ha hy1 hya.1) (wall_in_range b hb hya.2 hy2)).2.2
+    · have hk : a.key = b.key := by
+        unfold pyEq at hne; rw [if_pos htz] at hne; simpa using hne
+      obtain ⟨k1, k2, k3, k4, k5, k6, k7⟩ := key_eq a b hk
+      have hw : b.wallUs = a.wallUs := by
+        unfold E.wallUs E.tod; rw [k1, k2, k3, k4, k5, k6, k7]
+      have hz : preciseDiffPy a b = PD.zero := by unfold preciseDiffPy; rw [hne]; simp
+      simp only [hz, hw]
+      refine ⟨by unfold PD.Canonical PD.zero; simp, ?_⟩
+      have e1 : weeksOf PD.zero = 0 := by decide
+      have e2 : remainingDaysOf PD.zero el = 0 := by
+        unfold remainingDaysOf PD.zero absI; simp
+      rw [e1, e2]
+      exact addDuration_zero a ha hy1 (by rw [k1]; exact hy2)
+
+/-- **rebuild as pendulum values** — `interval.start + interval` (`DateTime.add` of years, months, weeks, remaining_days,
+    hours, minutes, remaining_seconds, microseconds of `b − a`) **is `b`**: same zone, same wall time, same instant, for two
+    `DateTime`s `a ≤ b` sharing a tzinfo whose UTC offset never changes (`ConstZone`: naive; UTC or any named zone without
+    transitions; `FixedTimezone`), `absolute` or not. `DateTime.add` takes the wall-clock branch when a calendar component
+    is present and the UTC branch otherwise; both land on `b`. Hypotheses: whole-second offset, a non-zero offset comes
+    from a named tzinfo (tag > 0), and the endpoints and their UTC readings are inside years 1..9999. -/
+theorem iv_rebuild_value (a b : IntervalPD.EP) (absolute : Bool) (z : DTOps.ZRef) (off : Int)
+    (hcz : IntervalPD.ConstZone z off) (hza : a.v.z = z) (hzb : b.v.z = z) (hsec : off % 1000000 = 0)
+    (htag : a.tag = b.tag) (hpos : off ≠ 0 → 0 < a.tag) (hda : a.isDt = true) (hdb : b.isDt = true)
+    (hle : IntervalPD.gtEP a b = false)
+    (hra : DTOps.inRange a.v.w = true) (hrb : DTOps.inRange b.v.w = true)
+    (hua : DTOps.inRange (a.v.w - off) = true) (hub : DTOps.inRange (b.v.w - off) = true) :
+    ∃ r, (IntervalPD.mk false a b absolute).rebuild = .ok r ∧ r.z = b.v.z ∧ r.w = b.v.w ∧
+      r.instant = b.v.instant := by
+  obtain ⟨vA, wA, tA, dA, _⟩ := IntervalPD.native_facts a hda
+  obtain ⟨vB, wB, tB, dB, _⟩ := IntervalPD.native_facts b hdb
+  have offA := IntervalPD.native_off a hda z off hcz hza
+  have offB := IntervalPD.native_off b hdb z off hcz hzb
+  have hwle : a.v.w ≤ b.v.w := by
+    unfold IntervalPD.gtEP at hle; rw [if_pos htag] at hle; simpa using hle
+  have hAle : a.native.le b.native := le_of_wallUs _ _ vA vB (by rw [wA, wB]; exact hwle)
+  have yA := year_range_of_wallUs a.native vA (by rw [wA]; exact (IntervalPD.inRange_iff _).mp hra)
+  have yB := year_range_of_wallUs b.native vB (by rw [wB]; exact (IntervalPD.inRange_iff _).mp hrb)
+  have hoffmul : off / US * 1000000 = off := by unfold US; omega
+  have sA := year_range_of_wallUs (pyShift a.native) (pyShift_spec a.native vA).1 (by
+    rw [pyShift_wallUs a.native vA, wA, offA, hoffmul]; exact (IntervalPD.inRange_iff _).mp hua)
+  have sB := year_range_of_wallUs (pyShift b.native) (pyShift_spec b.native vB).1 (by
+    rw [pyShift_wallUs b.native vB, wB, offB, hoffmul]; exact (IntervalPD.inRange_iff _).mp hub)
+  have oa := IntervalPD.offset_of a.v off (by rw [hza]; exact hcz)
+  have ob := IntervalPD.offset_of b.v off (by rw [hzb]; exact hcz)
+  have hel : 0 ≤ b.v.instant - a.v.instant := by unfold DTOps.V.instant; rw [oa, ob]; omega
+  have hcore := pd_rebuild_same_offset a.native b.native vA vB (by rw [tA, tB]; exact htag) (by rw [offA, offB])
+    (by intro h0; rw [tA]; apply hpos; intro h; rw [offA, h] at h0; exact h0 (by decide)) hAle dA dB yA.1 yB.2 sA.1 sB.2
+    (b.v.instant - a.v.instant) hel
+  simp only [] at hcore
+  obtain ⟨_, hr⟩ := hcore
+  rw [wA, wB] at hr
+  have hmk : (IntervalPD.mk false a b absolute).rebuild =
+      DTOps.add a.v (preciseDiffPy a.native b.native).years (preciseDiffPy a.native b.native).months
+        (weeksOf (preciseDiffPy a.native b.native))
+        (remainingDaysOf (preciseDiffPy a.native b.native) (b.v.instant - a.v.instant))
+        (preciseDiffPy a.native b.native).hours (preciseDiffPy a.native b.native).minutes
+        (preciseDiffPy a.native b.native).seconds (preciseDiffPy a.native b.native).micros := by
+    unfold IntervalPD.Iv.rebuild IntervalPD.mk
+    simp [hle, hda]
+  rw [hmk]
+  obtain ⟨r, e, rz, rw'⟩ := IntervalPD.add_of_addDuration a.v z off hcz hza _ _ _ _ _ _ _ _ b.v.w hr hra hrb hua hub
+  refine ⟨r, e, by rw [rz, hzb], rw', ?_⟩
+  have or' := IntervalPD.offset_of r off (by rw [rz]; exact hcz)
+  unfold DTOps.V.instant; rw [or', ob, rw']
+
+/-- **rebuild as values, `Date`s**: `start + interval` of two `Date`s `a ≤ b` (wall values of their midnights) is the
+    `Date` `b` (`Date.add` of years, months, weeks, remaining_days; a `date` pair is decomposed like the pair of its
+    midnights and has no time components) -/
+theorem iv_rebuild_date (a b : IntervalPD.EP) (absolute : Bool) (hza : a.v.z = .naive) (hzb : b.v.z = .naive)
+    (hda : a.isDt = false) (hdb : b.isDt = false) (hma : a.v.w % DAY = 0) (hmb : b.v.w % DAY = 0)
+    (htag : a.tag = b.tag) (hle : IntervalPD.gtEP a b = false)
+    (hra : DTOps.inRange a.v.w = true) (hrb : DTOps.inRange b.v.w = true) :
+    (IntervalPD.mk false a b absolute).rebuild = .ok ⟨.naive, b.v.w, false⟩ := by
+  have nA := IntervalPD.native_midnight a hma hza
+  have nB := IntervalPD.native_midnight b hmb hzb
+  obtain ⟨vA, wA, _⟩ := IntervalPD.native_facts ⟨a.v, 0, true⟩ rfl
+  obtain ⟨vB, wB, _⟩ := IntervalPD.native_facts ⟨b.v, 0, true⟩ rfl
+  rw [nA] at vA wA
+  rw [nB] at vB wB
+  simp only [] at wA wB
+  have hwle : a.v.w ≤ b.v.w := by
+    unfold IntervalPD.gtEP at hle; rw [if_pos htag] at hle; simpa using hle
+  have hAle := le_of_wallUs _ _ vA vB (by rw [wA, wB]; exact hwle)
+  have yA := year_range_of_wallUs _ vA (by rw [wA]; exact (IntervalPD.inRange_iff _).mp hra)
+  have yB := year_range_of_wallUs _ vB (by rw [wB]; exact (IntervalPD.inRange_iff _).mp hrb)
+  have oa := Range.naive_offset a.v hza
+  have ob := Range.naive_offset b.v hzb
+  have hel : 0 ≤ b.v.instant - a.v.instant := by unfold DTOps.V.instant; rw [oa, ob]; omega
+  have hr := pd_rebuild _ _ vA vB rfl (Or.inl ⟨rfl, rfl⟩) hAle rfl yA.1 yB.2 (b.v.instant - a.v.instant) hel
+  simp only [] at hr
+  rw [wA, wB, ← pd_date_as_datetime] at hr
+  obtain ⟨z1, z2, z3, z4⟩ := pd_date_time_zero (wallToFields a.v.w).1 (wallToFields a.v.w).2.1 (wallToFields a.v.w).2.2.1
+    (wallToFields b.v.w).1 (wallToFields b.v.w).2.1 (wallToFields b.v.w).2.2.1
+  rw [z1, z2, z3, z4] at hr
+  unfold IntervalPD.Iv.rebuild IntervalPD.mk
+  simp only [hle, Bool.and_false, Bool.false_eq_true, if_false, hda]
+  rw [IntervalPD.native_date a hda, IntervalPD.native_date b hdb, hr]
+
+/-- … and the same for the interval built with the **compiled** `precise_diff`, whenever the endpoints fall on different
+    wall-clock days (where `pd_backends_agree` applies; same-day pairs of the compiled helper are tied by the
+    correspondence run only) -/
+theorem iv_rebuild_value_rs (a b : IntervalPD.EP) (absolute : Bool) (z : DTOps.ZRef) (off : Int)
+    (hcz : IntervalPD.ConstZone z off) (hza : a.v.z = z) (hzb : b.v.z = z) (hsec : off % 1000000 = 0)
+    (htag : a.tag = b.tag) (hpos : off ≠ 0 → 0 < a.tag) (hda : a.isDt = true) (hdb : b.isDt = true)
+    (hle : IntervalPD.gtEP a b = false)
+    (hra : DTOps.inRange a.v.w = true) (hrb : DTOps.inRange b.v.w = true)
+    (hua : DTOps.inRange (a.v.w - off) = true) (hub : DTOps.inRange (b.v.w - off) = true)
+    (hdays : a.v.w / DAY ≠ b.v.w / DAY) :
+    ∃ r, (IntervalPD.mk true a b absolute).rebuild = .ok r ∧ r.z = b.v.z ∧ r.w = b.v.w ∧
+      r.instant = b.v.instant := by
+  have agree : ∀ x y : IntervalPD.EP, x.isDt = true → y.isDt = true → x.v.z = z → y.v.z = z → x.tag = y.tag →
+      (off ≠ 0 → 0 < x.tag) → DTOps.inRange x.v.w = true → DTOps.inRange y.v.w = true → x.v.w / DAY ≠ y.v.w / DAY →
+      preciseDiffRs x.native y.native = preciseDiffPy x.native y.native := by
+    intro x y hx hy zx zy ht hp rx ry hd
+    obtain ⟨vX, wX, tX, dX, yX, mX, ddX, _⟩ := IntervalPD.native_facts x hx
+    obtain ⟨vY, wY, tY, dY, yY, mY, ddY, _⟩ := IntervalPD.native_facts y hy
+    have yrX := year_range_of_wallUs x.native vX (by rw [wX]; exact (IntervalPD.inRange_iff _).mp rx)
+    have yrY := year_range_of_wallUs y.native vY (by rw [wY]; exact (IntervalPD.inRange_iff _).mp ry)
+    have offX := IntervalPD.native_off x hx z off hcz zx
+    have offY := IntervalPD.native_off y hy z off hcz zy
+    apply pd_backends_agree _ _ (by rw [tX, tY]; exact ht) dX dY yrX.1 yrY.1 ⟨vX.1.1, vX.1.2.1⟩ ⟨vY.1.1, vY.1.2.1⟩
+    · by_cases h0 : off = 0
+      · left; rw [offX, offY, h0]; decide
+      · right; rw [tX]; exact hp h0
+    · rw [Pendulum.Props.C15.day_number_eq _ _ _ ⟨vY.1.1, vY.1.2.1⟩,
+        Pendulum.Props.C15.day_number_eq _ _ _ ⟨vX.1.1, vX.1.2.1⟩, yX, mX, ddX, yY, mY, ddY,
+        IntervalPD.wallToFields_ord, IntervalPD.wallToFields_ord]
+      omega
+  have key : ∀ x y : IntervalPD.EP, (x = a ∧ y = b) ∨ (x = b ∧ y = a) →
+      preciseDiffRs x.native y.native = preciseDiffPy x.native y.native := by
+    rintro x y (⟨rfl, rfl⟩ | ⟨rfl, rfl⟩)
+    · exact agree _ _ hda hdb hza hzb htag hpos hra hrb hdays
+    · exact agree _ _ hdb hda hzb hza htag.symm (by rw [← htag]; exact hpos) hrb hra (Ne.symm hdays)
+  rw [IntervalPD.rebuild_rs_eq a b absolute key]
+  exact iv_rebuild_value a b absolute z off hcz hza hzb hsec htag hpos hda hdb hle hra hrb hua hub
+
 /-! non-vacuity -/
 def ex1 : E := ⟨2021, 5, 2, 0, 0, 0, 0, 0, 0, true⟩
 def ex2 : E := ⟨2021, 6, 1, 0, 0, 0, 0, 0, 0, true⟩
@@ -284,5 +475,46 @@ example : ex1.Valid ∧ ex2.Valid ∧ ex1.le ex2 ∧ NoShift ex1 ex2 := by
   · unfold E.le dateLe; decide
   · left; decide
 example : (preciseDiffPy ex2 ex1).toList = [0, 0, -30, 0, 0, 0, 0, -30] := by decide
+
+/-! non-vacuity of the same-offset / value-level theorems: 2021-03-01T00:30+01:00 → 2021-03-01T23:45+01:00 (one wall day; the
+UTC readings straddle the month end: Feb 28 23:30Z → Mar 1 22:45Z) and → 2024-02-29T23:45+01:00 -/
+def ex3 : E := ⟨2021, 3, 1, 0, 30, 0, 0, 3600, 7, true⟩
+def ex4 : E := ⟨2021, 3, 1, 23, 45, 0, 0, 3600, 7, true⟩
+example : ex3.Valid ∧ ex4.Valid ∧ ex3.le ex4 ∧ ¬ NoShift ex3 ex4 ∧ (pyShift ex3).y = 2021 ∧ (pyShift ex3).m = 2 ∧
+    (preciseDiffPy ex3 ex4).toList = [0, 0, 0, 23, 15, 0, 0, 0] := by
+  refine ⟨?_, ?_, ?_, ?_, ?_, ?_, ?_⟩
+  · unfold E.Valid E.timeOK; decide
+  · unfold E.Valid E.timeOK; decide
+  · unfold E.le dateLe; decide
+  · unfold NoShift; decide
+  · decide
+  · decide
+  · decide
+def epA : IntervalPD.EP := ⟨⟨.fixed 3600000000, 1614558600000000, false⟩, 1000003600000000, true⟩
+def epB : IntervalPD.EP := ⟨⟨.fixed 3600000000, 1614642300000000, false⟩, 1000003600000000, true⟩
+def epC : IntervalPD.EP := ⟨⟨.fixed 3600000000, 1709250300000000, false⟩, 1000003600000000, true⟩
+/-- both branches of `DateTime.add`: only hours/minutes (UTC branch), and 2 years 11 months 4 weeks 23 h 15 min -/
+example : (IntervalPD.mk false epA epB false).components = [0, 0, 0, 0, 23, 15, 0, 0, 0, 0] ∧
+    (IntervalPD.mk false epA epC false).components = [2, 11, 4, 0, 23, 15, 0, 0, 35, 1095] ∧
+    (match (IntervalPD.mk false epA epB false).rebuild with | .ok r => r.w | _ => 0) = epB.v.w ∧
+    (match (IntervalPD.mk false epA epC false).rebuild with | .ok r => r.w | _ => 0) = epC.v.w := by decide +kernel
+/-- the hypotheses of `iv_rebuild_value` hold for these values -/
+example : ∃ r, (IntervalPD.mk false epA epC true).rebuild = .ok r ∧ r.z = epC.v.z ∧ r.w = epC.v.w ∧
+    r.instant = epC.v.instant :=
+  iv_rebuild_value epA epC true (.fixed 3600000000) 3600000000 (.fixed _) rfl rfl (by decide) rfl (by decide) rfl rfl
+    (by decide) (by decide) (by decide) (by decide) (by decide)
+
+def dtA : IntervalPD.EP := ⟨⟨.naive, 1582934400000000, false⟩, 0, false⟩
+def dtB : IntervalPD.EP := ⟨⟨.naive, 1735689600000000, false⟩, 0, false⟩
+/-- `Date`s 2020-02-29 → 2025-01-01: 4 years 10 months 3 days, and the hypotheses of `iv_rebuild_date` hold -/
+example : (IntervalPD.mk false dtA dtB false).components = [4, 10, 0, 3, 0, 0, 0, 0, 58, 1768] ∧
+    (IntervalPD.mk false dtA dtB false).rebuild = .ok ⟨.naive, dtB.v.w, false⟩ :=
+  ⟨by decide +kernel, iv_rebuild_date dtA dtB false rfl rfl rfl rfl (by decide) (by decide) rfl (by decide) (by decide)
+    (by decide)⟩
+/-- … and those of `iv_rebuild_value_rs` for the fixed-offset pair on different days -/
+example : ∃ r, (IntervalPD.mk true epA epC false).rebuild = .ok r ∧ r.z = epC.v.z ∧ r.w = epC.v.w ∧
+    r.instant = epC.v.instant :=
+  iv_rebuild_value_rs epA epC false (.fixed 3600000000) 3600000000 (.fixed _) rfl rfl (by decide) rfl (by decide) rfl rfl
+    (by decide) (by decide) (by decide) (by decide) (by decide) (by decide)
 
 end Pendulum.Props.C06
